@@ -2,6 +2,8 @@ package props
 
 import (
 	"fmt"
+	coraza "github.com/corazawaf/coraza/v3"
+	"strings"
 	"time"
 
 	"github.com/corazawaf/coraza/v3/verifharness/eng"
@@ -80,6 +82,69 @@ func C12(run *vf.Run) {
 	designSelfTest(run)
 	eng.ReplayFamily(run, eng.FamilyOpts{Name: "cache", CfgText: cacheCfg(vf.Pick(run, 3, 4), vf.Pick(run, 0, 1), "byValue", true),
 		Proj: eng.ProjOpts{}, Timeout: vf.Pick(run, 10*time.Minute, 90*time.Minute), Workers: 3, Slices: 6, OrderModes: eng.OrderModes})
+	if run.NumViolations() == 0 {
+		c12Scale(run)
+	}
+}
+
+// c12Scale replays one scenario shape of the cache family (a repeated name, two rules sharing a
+// transformation prefix, exactly one value satisfying the operator) with the non-matching value
+// repeated K times: in Engine.tla padding with values the operator rejects changes neither the fired
+// rules nor their match data, whatever K is. K crosses the widths an index could be packed into.
+func c12Scale(run *vf.Run) {
+	text := `SecRuleEngine On
+SecRule ARGS_GET:p "@streq b" "id:1,phase:1,pass,t:lowercase"
+SecRule ARGS_GET:p "@streq b" "id:2,phase:1,pass,t:lowercase,t:trim"
+SecRule REQUEST_HEADERS:x-p "@streq b" "id:3,phase:1,pass,t:lowercase"
+`
+	w, err := coraza.NewWAF(coraza.NewWAFConfig().WithDirectives(text))
+	if err != nil {
+		run.Inconclusive("scale configuration rejected: %v", err)
+		return
+	}
+	defer closeAny(w)
+	for _, k := range []int{1, 255, 256, 257, 65535, 65536, 65537, vf.Pick(run, 70000, 140000)} {
+		for _, where := range []string{"last", "first", "both"} {
+			var q strings.Builder
+			n := 0
+			tx := w.NewTransaction()
+			if where == "first" || where == "both" {
+				q.WriteString("p=B&")
+				tx.AddRequestHeader("X-P", "B")
+				n++
+			}
+			for i := 0; i < k; i++ {
+				q.WriteString("p=a&")
+				tx.AddRequestHeader("X-P", "a")
+			}
+			if where == "last" || where == "both" {
+				q.WriteString("p=B")
+				tx.AddRequestHeader("X-P", "B")
+				n++
+			}
+			tx.ProcessURI("/?"+q.String(), "GET", "HTTP/1.1")
+			tx.ProcessRequestHeaders()
+			got := map[int]int{}
+			for _, mr := range tx.MatchedRules() {
+				for _, md := range mr.MatchedDatas() {
+					if md.Value() == "B" {
+						got[mr.Rule().ID()]++
+					} else {
+						got[-mr.Rule().ID()]++
+					}
+				}
+			}
+			_ = tx.Close()
+			run.Eval(fmt.Sprintf("scale-%d-%s", k, where))
+			for _, id := range []int{1, 2, 3} {
+				if got[id] != n || got[-id] != 0 {
+					run.Violate(vf.Violation{Signature: "cache:scaled-instance|" + fmt.Sprintf("rule%d", id), What: fmt.Sprintf("the value B among %d copies of the value a under one name (B %s): rule %d must match exactly the %d value(s) B; it matched %d of them and %d other value(s) || %s",
+						k, where, id, n, got[id], got[-id], strings.ReplaceAll(text, "\n", " ; ")), Replay: map[string]any{"family": "scale", "k": k, "where": where, "directives": text}})
+					return
+				}
+			}
+		}
+	}
 }
 
 // C04 is defined in c04.go
